@@ -6,9 +6,9 @@ Mirrors agent/consul/state/catalog.go + catalog_ce.go: `ensureRegistrationTxn`, 
 (incl. rename by node ID), `ensureNoNodeWithSimilarNameTxn`, `ensureNodeCASTxn`,
 `ensureServiceTxn`, `ensureServiceCASTxn`, `ensureCheckCASTxn`, `deleteNodeTxn`, `deleteNodeCASTxn`,
 `deleteServiceTxn`, `deleteServiceCASTxn`, `deleteCheckTxn`, `deleteCheckCASTxn` and the
-`catalogUpdate*Indexes` helpers (index rows `nodes`, `services`, `checks`, their `peer.internal:`
-twins, `peer.internal:node.<n>`, `peer.internal:service.<s>`, `service_kind.typical`,
-`peer.internal:service_extinction`, `peer.internal:node_extinction`).
+`catalogUpdate*Indexes` helpers (index rows `nodes`, `services`, `checks`, their `peer.~:`
+twins, `peer.~:node.<n>`, `peer.~:service.<s>`, `service_kind.typical`,
+`peer.~:service_last_extinction`, `peer.~:node_last_extinction`).
 
 Not modelled (left for C07): service kinds other than typical, connect, gateways, virtual IPs,
 kind-service-names (and their `kind-service-names.*` index rows), usage counters, coordinates, peers.
@@ -37,21 +37,36 @@ def nameClash (s : State) (n : Node) (allowClashWithoutID : Bool) : Bool :=
 /-- `catalogInsertNode` -/
 def nodeInsert (s : State) (n : Node) : State :=
   let s1 := { s with nodes := tupsert Node.pk strLt n s.nodes }
-  let s2 := (s1.maxIdx2 "nodes" n.modify).maxIdx ("peer.internal:node." ++ n.name) n.modify
+  let s2 := (s1.maxIdx2 "nodes" n.modify).maxIdx ("peer.~:node." ++ n.name) n.modify
   updateAllServiceIndexesOfNode s2 n.modify n.name
+
+/-- `deleteCheckTxn` up to (excluding) the session invalidation: index bumps and the row delete -/
+def deleteCheckPre (s : State) (idx : Nat) (node id : String) (x : Chk) : State :=
+  let s1 :=
+    if x.svcId ≠ "" then
+      -- (the Go code dereferences the service row here; a check never outlives its service)
+      (s.maxIdx ("peer.~:service." ++ x.svcName) idx).maxIdx2 "service_kind.typical" idx
+    else (updateAllServiceIndexesOfNode s idx x.node).maxIdx2 "services" idx
+  ({ s1 with chks := terase Chk.pk (pk2 node id) s1.chks }).maxIdx2 "checks" idx
 
 /-- `deleteCheckTxn` -/
 def deleteCheck (s : State) (idx : Nat) (node id : String) : Except Err State :=
   match chkFind s node id with
   | none => .ok s
   | some x =>
-    let s1 :=
-      if x.svcId ≠ "" then
-        -- (the Go code dereferences the service row here; a check never outlives its service)
-        (s.maxIdx ("peer.internal:service." ++ x.svcName) idx).maxIdx2 "service_kind.typical" idx
-      else (updateAllServiceIndexesOfNode s idx x.node).maxIdx2 "services" idx
-    let s2 := ({ s1 with chks := terase Chk.pk (pk2 node id) s1.chks }).maxIdx2 "checks" idx
+    let s2 := deleteCheckPre s idx node id x
     foldE (fun st sid => deleteSession st idx sid) (checkSessions s2 x.node x.id) s2
+
+/-- `deleteServiceTxn` after its checks are gone: the row delete and the index maintenance -/
+def deleteServicePost (s1 : State) (idx : Nat) (node id : String) (v : Svc) : State :=
+  let s2 := s1.maxIdx2 "checks" idx
+  let s3 := { s2 with svcs := terase Svc.pk (pk2 node id) s2.svcs }
+  let s4 := (((s3.maxIdx2 "services" idx).maxIdx2 "service_kind.typical" idx).maxIdx2 "nodes" idx).maxIdx
+              ("peer.~:node." ++ node) idx
+  if s4.svcs.any (fun w => lc w.name == lc v.name) then
+    s4.maxIdx ("peer.~:service." ++ v.name) idx
+  else
+    (s4.delIdx ("peer.~:service." ++ v.name)).maxIdx "peer.~:service_last_extinction" idx
 
 /-- `deleteServiceTxn` -/
 def deleteService (s : State) (idx : Nat) (node id : String) : Except Err State :=
@@ -61,15 +76,12 @@ def deleteService (s : State) (idx : Nat) (node id : String) : Except Err State 
     let cs := s.chks.filter (fun c => lc c.node == lc node && lc c.svcId == lc id)
     match foldE (fun st c => deleteCheck st idx node c.id) cs s with
     | .error e => .error e
-    | .ok s1 =>
-      let s2 := s1.maxIdx2 "checks" idx
-      let s3 := { s2 with svcs := terase Svc.pk (pk2 node id) s2.svcs }
-      let s4 := (((s3.maxIdx2 "services" idx).maxIdx2 "service_kind.typical" idx).maxIdx2 "nodes" idx).maxIdx
-                  ("peer.internal:node." ++ node) idx
-      if s4.svcs.any (fun w => lc w.name == lc v.name) then
-        .ok (s4.maxIdx ("peer.internal:service." ++ v.name) idx)
-      else
-        .ok ((s4.delIdx ("peer.internal:service." ++ v.name)).maxIdx "peer.internal:service_extinction" idx)
+    | .ok s1 => .ok (deleteServicePost s1 idx node id v)
+
+/-- `deleteNodeTxn`: the row delete and index maintenance between the check loop and the session loop -/
+def deleteNodePost (s3 : State) (idx : Nat) (name : String) : State :=
+  let s4 := { s3 with nodes := terase Node.pk (lc name) s3.nodes }
+  (((s4.maxIdx2 "nodes" idx).delIdx ("peer.~:node." ++ name)).maxIdx "peer.~:node_last_extinction" idx)
 
 /-- `deleteNodeTxn` -/
 def deleteNode (s : State) (idx : Nat) (name : String) : Except Err State :=
@@ -85,9 +97,7 @@ def deleteNode (s : State) (idx : Nat) (name : String) : Except Err State :=
       match foldE (fun st c => deleteCheck st idx name c.id) cs s2 with
       | .error e => .error e
       | .ok s3 =>
-        let s4 := { s3 with nodes := terase Node.pk (lc name) s3.nodes }
-        let s5 := (((s4.maxIdx2 "nodes" idx).delIdx ("peer.internal:node." ++ name)).maxIdx
-                    "peer.internal:node_extinction" idx)
+        let s5 := deleteNodePost s3 idx name
         -- allNodeSessionsTxn
         let ids := (s5.sessions.filter (fun x => lc x.node == lc name)).map (·.id)
         foldE (fun st sid => deleteSession st idx sid) ids s5
@@ -150,8 +160,8 @@ def svcSame (a b : Svc) : Bool := lc a.node == lc b.node && a.id == b.id && a.na
 /-- `catalogInsertService` -/
 def svcInsert (s : State) (v : Svc) : State :=
   let s1 := { s with svcs := tupsert Svc.pk strLt v s.svcs }
-  ((((s1.maxIdx2 "services" v.modify).maxIdx ("peer.internal:service." ++ v.name) v.modify).maxIdx2
-      "service_kind.typical" v.modify).maxIdx2 "nodes" v.modify).maxIdx ("peer.internal:node." ++ v.node) v.modify
+  ((((s1.maxIdx2 "services" v.modify).maxIdx ("peer.~:service." ++ v.name) v.modify).maxIdx2
+      "service_kind.typical" v.modify).maxIdx2 "nodes" v.modify).maxIdx ("peer.~:node." ++ v.node) v.modify
 
 /-- `ensureServiceTxn` (typical kind, preserveIndexes = false) -/
 def ensureService (s : State) (idx : Nat) (v : Svc) : Except Err State :=
